@@ -1027,7 +1027,7 @@ impl Prop for C08 {
         ]
     }
     fn cases(&self, tier: Tier) -> u32 {
-        tier.pick(700, 15_000)
+        tier.pick(2000, 15_000)
     }
     fn min_nontrivial(&self, tier: Tier) -> usize {
         tier.pick(150, 350)
